@@ -572,7 +572,123 @@ class _PRHook:
     pass
 
 
-UNITS_C04 = [BuiltinFormat, BuiltinText, Parse, UDToJSON]
+# ------------------------------------------------------------------ text format for texts of ANY length (loop invariant)
+def _LINES():
+    return z3.Function('text_lines_upto', z3.IntSort(), Val)
+
+
+def _LINE():
+    return z3.Function('text_line_upto', z3.IntSort(), PyStr)
+
+
+class TextInv(LoopInv):
+    """after i characters: lines == LINES(i), line == LINE(i), where
+       LINE(i+1)  = ''                       if c_i is a newline, else LINE(i) + (c_i if ' ' <= c_i <= '~' else '.')
+       LINES(i+1) = LINES(i) ++ [LINE(i)]    if c_i is a newline, else LINES(i)"""
+    func = PUD + "ParseUserData.getBuiltinFormatJSON"
+    loop = 0
+    modifies_locals = ('ch', 'line')
+
+    def heap_targets(self, it, fr):
+        return [fr.locals['lines']]
+
+    def base(self, ctx):
+        if not ctx.ghost.get('text_base'):
+            ctx.ghost['text_base'] = True
+            ctx.assume(z3.And(_LINES()(0) == v_nil(), _LINE()(0) == lit('')))
+
+    def havoc(self, it, fr, i):
+        self.base(it.ctx)
+        fr.locals['lines'][:] = [Chunk(_LINES()(zint(i)))]
+        fr.locals['line'] = mkstr([Opq(_LINE()(zint(i)))])
+
+    def inv(self, it, fr, i):
+        self.base(it.ctx)
+        ln = fr.locals['line']
+        return And(list_term(fr.locals['lines']) == _LINES()(zint(i)), str_term(ln) == _LINE()(zint(i)))
+
+    def variant(self, it, fr, i):
+        return None
+
+    def unfold(self, it, fr, i):
+        ctx = it.ctx
+        text = spec_text_of(field(fr.locals['self'], 'data'))
+        c = ufun('str_cp_at', PyStr, z3.IntSort(), z3.IntSort())(text, zint(i))
+        L, LS = _LINE(), _LINES()
+        cur = mkstr([Opq(L(zint(i)))])
+        if branch(Eq(c, 10)):
+            ctx.assume(z3.And(L(zint(i) + 1) == lit(''), LS(zint(i) + 1) == v_snoc(LS(zint(i)), val_term(cur))))
+        else:
+            keep = branch(And(c >= 32, c <= 126))
+            ctx.assume(z3.And(L(zint(i) + 1) == str_term(mkstr([Opq(L(zint(i))), c if keep else 46])),
+                              LS(zint(i) + 1) == LS(zint(i))))
+
+
+def spec_text_of(data):
+    """the payload as text: UTF-8 decoded, surrounding white space stripped, then trailing NULs stripped"""
+    b = _ops.as_sbytes(data)
+    t = ufun('decode_utf8', b.arr.sort(), z3.IntSort(), z3.IntSort(), PyStr)(b.arr, zint(b.off), zint(b.ln))
+    t = ufun('strip_ws', PyStr, PyStr)(t)
+    return ufun('rstrip_00', PyStr, PyStr)(t)
+
+
+class BuiltinTextAny(Unit):
+    """text format, payload of ANY length: the result is json.dumps of the payload text split at newlines with exactly the
+    characters outside ' '..'~' replaced by '.', a trailing unterminated line kept when non-empty"""
+    prop = "C04"
+    name = "ParseUserData.getBuiltinFormatJSON (text, any length)"
+    target = PUD + "ParseUserData.getBuiltinFormatJSON"
+    invariants = [TextInv]
+
+    def inputs(self, S):
+        if not S.symbolic and hasattr(S, 'rng'):
+            r = S.rng
+            data = bytes(r.choice([10, 32, 0, 126, 127, 31, 65, 97, 9, 34, 58, 200]) if r.random() < 0.5 else r.randrange(0, 128)
+                         for _ in range(r.randrange(0, 60)))
+            S.log['payload'] = data.hex()
+        else:
+            data = S.bytes("payload", kind='bytes')
+        return dict(self=S.obj(PUD + "ParseUserData", creatorID="O", compID=0x2000, subType=3, version=1, data=data))
+
+    def check(self, P, inp, old, out):
+        if not P.symbolic:
+            import json
+            try:
+                text = bytes(field(inp['self'], 'data')).decode().strip().rstrip('\x00')
+            except UnicodeDecodeError:
+                P.prove(not out.returned and out.exc_class is UnicodeDecodeError, "fails only when the payload is not UTF-8")
+                return
+            lines = [''.join(c if ' ' <= c <= '~' else '.' for c in ln) for ln in text.split('\n')]
+            if lines and lines[-1] == '':
+                lines.pop()
+            P.prove(out.returned and json.loads(out.value) == lines,
+                    "lines == the text split at newlines, characters outside ' '..'~' replaced by '.'")
+            return
+        ctx = P.ctx
+        d = field(inp['self'], 'data')
+        b = _ops.as_sbytes(d)
+        if not out.returned:
+            P.prove(out.exc_class is UnicodeDecodeError, "fails only when the payload is not UTF-8 (contained by the caller)")
+            P.prove(Not(ufun('utf8_valid', b.arr.sort(), z3.IntSort(), z3.IntSort(), z3.BoolSort())(b.arr, zint(b.off), zint(b.ln))),
+                    "and only then")
+            return
+        text = spec_text_of(d)
+        n = ufun('slen', PyStr, z3.IntSort())(text)
+        name = self.target + "#loop0"
+        P.prove(ctx.ghost.get(name + '.exit') == 'exhausted' and Eq(ctx.ghost.get(name + '.exit_index'), n),
+                "every character of the stripped text is visited, in order")
+        P.prove(isinstance(out.value, DumpedStr), "the result is json.dumps of the list of lines")
+        if not isinstance(out.value, DumpedStr):
+            return
+        L, LS = _LINE()(n), _LINES()(n)
+        last = mkstr([Opq(L)])
+        want = v_snoc(LS, val_term(last)) if branch(L != lit('')) else LS
+        P.prove(list_term(out.value.value) == want,
+                "lines == LINES(len) plus the unterminated last line when it is non-empty (LINES/LINE: split at newlines, "
+                "characters outside ' '..'~' replaced by '.')")
+
+
+UNITS_C04 = [BuiltinFormat, BuiltinText, BuiltinTextAny, Parse, UDToJSON]
 UNITS_C18 = [ParseCustom]
 
 
@@ -637,7 +753,7 @@ class UDSectionNative(Unit):
         P.prove(ok, "no decoder for this section: it carries a hex dump from which exactly the payload is recovered")
 
 
-UNITS_C04 = [BuiltinFormat, BuiltinText, Parse, UDToJSON, UDSectionNative]
+UNITS_C04 = [BuiltinFormat, BuiltinText, BuiltinTextAny, Parse, UDToJSON, UDSectionNative]
 
 
 # ------------------------------------------------------------------ SRC parser selection (C18) and caches (C19)
